@@ -15,8 +15,9 @@ use crate::report::Report;
 use crate::sched;
 use crate::util::{Fnv, HRng};
 
-const KINDS: [&str; 12] = [
+const KINDS: [&str; 13] = [
     "logp_never_finite",
+    "init_first_logp_nonfinite",
     "init_first_attempts_invalid",
     "logp_unrecoverable",
     "logp_recoverable",
@@ -245,6 +246,16 @@ fn run_fcase(report: &mut Report, c: &FCase, stallcheck: bool) -> bool {
         }
         "storage_init" => {
             spec.storage_faults = StorageFaults { init_fail: c.chains.iter().map(|ch| *ch as u64).collect(), ..Default::default() };
+        }
+        "init_first_logp_nonfinite" => {
+            // the first starting points have a finite gradient but a NaN / infinite log density: they are refused after
+            // the adaptation has already seen them; the chain retries and the run must succeed
+            expect_err = false;
+            let f = if c.place_frac < 0.5 { Fault::NanLogp } else { Fault::NegInfLogp };
+            let k = 1 + (c.place_frac * 3.0) as u64;
+            for ch in &c.chains {
+                spec.plans.insert(*ch, (0..k).map(|i| (i, f)).collect());
+            }
         }
         "logp_never_finite" => {
             // a density without any point of finite log density for these chains (finite gradients): every starting
